@@ -25,6 +25,13 @@ def run(tier, seed):
     jobs = []
     for n, (a, b, kind) in enumerate(pairs):
         (da, sa), (db, sb) = grids[a], grids[b]
+        if (sa["outcome"] == "file") != (sb["outcome"] == "file"):
+            # the transformed input is refused where the original is gridded (or the reverse): not the transformed grid
+            v.add_case("pair %s/%s/%s (one refused)" % (a, b, kind))
+            v.violation("C16 engine=gridpair clause=PairBothGenerate loc=generation pair=%s/%s/%s" % (a, b, kind),
+                        "one configuration of the pair %s/%s is gridded and the other is refused: %s / %s" % (a, b, sa.get("exception", sa["outcome"]), sb.get("exception", sb["outcome"])),
+                        {"pair": [a, b, kind], "outcomes": [sa["outcome"], sb["outcome"]], "exceptions": [sa.get("exception"), sb.get("exception")]})
+            continue
         if sa["outcome"] != "file" or sb["outcome"] != "file":
             v.note("refused_%s_%s" % (a, b), [sa.get("exception"), sb.get("exception")])
             continue
